@@ -5,10 +5,11 @@
 (* backends — all rendering entry points, the Write/PushParam event stream *)
 (* of the real renderer, inject_parameters.                                *)
 (***************************************************************************)
-EXTENDS GrammarLaw, RefStmt, WriterLaw, IOUtils, TLCExt, FiniteSets
+EXTENDS Portable, RefStmt, WriterLaw, IOUtils, TLCExt, FiniteSets
 Rec == ndJsonDeserialize(IOEnv.TRACE)
 Backends == {"mysql", "pg", "sqlite"}
 WithGrammar == "GRAMMAR" \in DOMAIN IOEnv /\ IOEnv.GRAMMAR = "1"
+WithPortable == "PORTABLE" \in DOMAIN IOEnv /\ IOEnv.PORTABLE = "1"
 VARIABLE l
 TInit == l = 1
 IsPanic(o) == "panic" \in DOMAIN o
@@ -56,8 +57,22 @@ Exact(B, r) ==
       p == RenderParams(B, r.stmt)
   IN o.inline = RenderInline(B, r.stmt) /\ o.sql = p.sql /\ Len(o.lits) = Len(p.vals) /\ \A i \in DOMAIN p.vals : o.lits[i] = p.vals[i]
 
+\* C09: transliterations of the three renderings (inline and parameterised) and their token equality
+C09Of(r) ==
+  IF ~WithPortable THEN [portable |-> FALSE]
+  ELSE LET s == BuildStmt(r.stmt) IN
+    IF ~Portable(s) \/ \E B \in Backends : IsPanic(r.obs.r[B]) THEN [portable |-> FALSE]
+    ELSE LET tl == Translit("sqlite", r.obs.r["sqlite"].r.inline)
+             tm == Translit("mysql", r.obs.r["mysql"].r.inline)
+             tp == Translit("pg", r.obs.r["pg"].r.inline)
+             emu == Contains(r.obs.r["mysql"].r.inline, " IS NULL ASC, ") \/ Contains(r.obs.r["mysql"].r.inline, " IS NULL DESC, ")
+         IN [portable |-> TRUE, nulls |-> emu,
+             pg_tokens_equal |-> tp = tl, mysql_tokens_equal |-> emu \/ tm = tl,
+             sqlite |-> JoinS(tl, " "), mysql |-> JoinS(tm, " "), pg |-> JoinS(tp, " "),
+             mysql_p |-> TranslitText("mysql", r.obs.r["mysql"].r.sql), pg_p |-> TranslitText("pg", r.obs.r["pg"].r.sql)]
+
 Verdict(r) ==
-  IF IsPanic(r.obs) THEN [id |-> r.id, keys |-> {"C01/harness/panic", "C02/harness/panic"}, exact |-> TRUE, nvals |-> 0, skipped |-> 0, ref |-> "", ordered |-> FALSE]
+  IF IsPanic(r.obs) THEN [id |-> r.id, keys |-> {"C01/harness/panic", "C02/harness/panic"}, exact |-> TRUE, nvals |-> 0, skipped |-> 0, ref |-> "", ordered |-> FALSE, c09 |-> [portable |-> FALSE]]
   ELSE
   LET ks == UNION {KeysFor(B, r) : B \in Backends}
         \cup (IF r.obs.r.eq_after THEN {} ELSE {"C02/all/rendering_modified_the_statement"})
@@ -66,7 +81,8 @@ Verdict(r) ==
       exact |-> \A B \in Backends : Exact(B, r),
       nvals |-> IF IsPanic(r.obs.r["pg"]) THEN 0 ELSE Len(r.obs.r["pg"].r.values),
       ref |-> IF WithGrammar /\ ~Unsupported("sqlite", BuildStmt(r.stmt)) THEN RefS(BuildStmt(r.stmt)) ELSE "",
-      ordered |-> LET s == BuildStmt(r.stmt) IN s.kind = "select" /\ Len(s.orders) > 0]
+      ordered |-> LET s == BuildStmt(r.stmt) IN s.kind = "select" /\ Len(s.orders) > 0,
+      c09 |-> C09Of(r)]
 
 Step == /\ l <= Len(Rec)
         /\ PrintT(<<"R", ToJson(Verdict(Rec[l]))>>)
